@@ -391,3 +391,37 @@ def _saslprep(model: Model, rep: Report) -> None:
     pro = mod.assigns.get("_PROHIBITED")
     names = sorted((dotted(e) or "").replace("stringprep.", "") for e in pro.elts) if isinstance(pro, ast.Tuple) else []
     r8.check(names == sorted(["in_table_c12", "in_table_c21_c22", "in_table_c3", "in_table_c4", "in_table_c5", "in_table_c6", "in_table_c7", "in_table_c8", "in_table_c9"]), f"{mod.relpath}:{getattr(pro, 'lineno', 0)}:_PROHIBITED", "pdfminer._saslprep", "prohibited output: C.1.2, C.2.1/C.2.2, C.3 .. C.9", why=f"{names}")
+
+
+def _v5_owner_hash(model: Model, rep: Report) -> None:
+    """C10-R11: ISO 32000-2 7.6.4.3.3 (algorithm 2.A): the owner hashes - validation and intermediate key - are taken over
+    password + salt + the 48-byte /U string; the user hashes over password + salt alone.  Dropping U from the owner *key*
+    hash leaves the password accepted (validation unchanged) and /OE decrypted with the wrong key: garbage, no error."""
+    r = rep.rule("C10-R11", "BIND", "V5 authenticate: both owner hashes (validation salt, key salt) are computed with self.u as third operand, both user hashes without it", 4)
+    f = model.func("pdfminer.pdfdocument.PDFStandardSecurityHandlerV5.authenticate")
+    calls = [c for c in walk_no_nested(f.node) if isinstance(c, ast.Call) and (dotted(c.func) or "") == "self._password_hash"]
+    if len(calls) < 4:
+        raise AnchorMissing("V5 authenticate: the four _password_hash calls not found")
+    seen = set()
+    for c in calls:
+        args = ["".join(unparse(a).split()) for a in c.args] + [f"{k.arg}={''.join(unparse(k.value).split())}" for k in c.keywords]
+        salt = args[1] if len(args) > 1 else "?"
+        seen.add(salt)
+        if salt.startswith("self.o_"):
+            ok = len(args) == 3 and args[2] in ("self.u", "vector=self.u")
+            why = f"operands {args}: the owner hash is taken without /U - the owner password is still accepted when only the key hash is affected, and every string and stream decrypts to garbage"
+        elif salt.startswith("self.u_"):
+            ok = len(args) == 2
+            why = f"operands {args}: the user hash takes no third operand"
+        else:
+            ok, why = False, f"salt operand {salt} is none of the four salts"
+        r.check(ok, site(f, c), f.qualname, f"_password_hash({', '.join(args)})", why=why)
+    r.check(seen == {"self.o_validation_salt", "self.o_key_salt", "self.u_validation_salt", "self.u_key_salt"}, site(f), f.qualname, "the four salts are used once each", why=f"salts {sorted(seen)}")
+
+
+_run_r1_r10 = run
+
+
+def run(model: Model, rep: Report) -> None:  # noqa: F811
+    _run_r1_r10(model, rep)
+    _v5_owner_hash(model, rep)
